@@ -8,6 +8,10 @@ import ALV.Lemmas.C05Pow
 import ALV.Lemmas.C05Lists
 import ALV.Lemmas.C05Spec
 import ALV.Lemmas.C05Nested
+import ALV.Lemmas.C05Canon
+import ALV.Lemmas.C05Lin
+import ALV.Lemmas.C05Hist
+import ALV.Lemmas.C05Subst
 import ALV.Model.C05Lin
 import ALV.Spec.C05
 import ALV.Common.Audit
@@ -1001,6 +1005,255 @@ example : (linearizeF [⟨0, -1/2, 2⟩, ⟨2, 0, 3⟩, ⟨4, 1/4, 1⟩] [⟨0, 
 example : (powSpelled zz (-2) .float).toOption.map (fun h => h.num) = some [(2, 1)] := by decide +kernel
 example : (powSpelled f1 2 .float).toOption.isNone = true ∧ (powSpelled f1 2 .int).toOption.isSome = true := by
   decide +kernel
+
+
+/-! ## C05.6 (round 4) what is RUN is proved
+
+The executable canonical-form specification the driver runs against the code (`rSum`, `rProd`, `rNorm`,
+`lowKey`, `rCausal`), the remaining methods of filter list objects (`is_linear`, `len`), the fractional-delay
+`linearize` as coded (dictionary accumulation, `int()` truncation), substitution of monomials with ANY gain
+in closed form and against evaluation at points, and histories of MUTABLE filter lists. -/
+
+/-- **spec_sum_prod**: the specification's "sum / product of the parts" are the sum / product in the field
+of rational functions -/
+theorem spec_sum_prod (fs : List (ZF K)) (h : ∀ f ∈ fs, C05.D f ≠ 0) :
+    C05.D (rSum fs) ≠ 0 ∧ val (rSum fs) = (fs.map val).sum ∧
+    C05.D (rProd fs) ≠ 0 ∧ val (rProd fs) = (fs.map val).prod :=
+  ⟨(val_rSum fs h).1, (val_rSum fs h).2, (val_rProd fs h).1, (val_rProd fs h).2⟩
+
+/-- **spec_lowKey**: `lowKey` of a canonical form is the order of the Laurent polynomial (`none` iff it is 0) -/
+theorem spec_lowKey (p : MPoly K) :
+    (lowKey (canon p) = none ↔ toLaurent p = 0) ∧
+    ∀ k, lowKey (canon p) = some k → (toLaurent p).coeff k ≠ 0 ∧ ∀ j, j < k → (toLaurent p).coeff j = 0 :=
+  ⟨lowKey_canon_none p, fun _ h => lowKey_canon_some h⟩
+
+/-- **spec_norm**: `rNorm` fails exactly on the zero denominator; otherwise it returns the SAME element of
+the fraction field, written with a denominator that starts at delay 0 -/
+theorem spec_norm (f : ZF K) :
+    (rNorm f = none ↔ C05.D f = 0) ∧
+    ∀ g, rNorm f = some g → C05.D g ≠ 0 ∧ val g = val f ∧ (C05.D g).coeff 0 ≠ 0 ∧
+      ∀ j, j < 0 → (C05.D g).coeff j = 0 :=
+  ⟨rNorm_none_iff f, fun g h => ⟨(rNorm_some h).2.1, (rNorm_some h).2.2.1, (rNorm_some h).2.2.2.1, (rNorm_some h).2.2.2.2⟩⟩
+
+/-- **causality_decided**: `rCausal` tests the numerator of the normalised pair; on every filter object with
+a normalised denominator (all that the constructor returns) it is the model's `is_causal`, which decides
+`Causal`; and the decision only depends on the rational function -/
+theorem causality_decided {f : ZF K} (hf : Norm f) :
+    (∀ s : ZF K, rCausal s = true ↔ ∃ g, rNorm s = some g ∧ isPolynomial g.num = true) ∧
+    rCausal (rOf f) = isCausal f ∧ isCausal f = isPolynomial f.num ∧ (isCausal f = true ↔ Causal f) ∧
+    ∀ g : ZF K, Norm g → f ≈ g → isCausal g = isCausal f := by
+  refine ⟨fun s => ?_, rCausal_rOf hf, rfl, (causal_iff_isCausal hf).symm, fun g hg h => ?_⟩
+  · rw [rCausal_iff]; simp only [isPoly_iff]
+  · have hv := (equiv_iff_val hf.1 hg.1).1 h
+    rw [Bool.eq_iff_iff, ← causal_iff_isCausal hg, ← causal_iff_isCausal hf]
+    exact ⟨fun c => causal_of_val_eq hf.1 hf.2.1 hf.2.2 c hv, fun c => causal_of_val_eq hg.1 hg.2.1 hg.2.2 c hv.symm⟩
+
+/-- **is_linear_rule** / **nonlinear_polys**: `is_linear()` by recursion on the structure; `numpoly` /
+`denpoly` raise AttributeError only when a part is non-linear, never return polynomials then, and a parallel
+with a non-linear part raises exactly AttributeError -/
+theorem is_linear_rule (k : Kind) (p : FL K) (t : FLs K) (f : ZF K) (c : K) (i : ℕ) :
+    (FL.leaf f).linear = true ∧ (FL.num c : FL K).linear = true ∧ (FL.other i : FL K).linear = false ∧
+    (FL.node k (.cons p t)).linear = (p.linear && (FL.node k t).linear) ∧ (FL.node k .nil : FL K).linear = true := by
+  refine ⟨rfl, rfl, rfl, ?_, rfl⟩
+  simp [FL.linear, FLs.linear]
+
+theorem nonlinear_polys (o : FL K) :
+    (o.polys = .error .attribute → o.linear = false) ∧ (o.linear = false → ∀ nd, o.polys ≠ .ok nd) ∧
+    (o.Full → o.linear = true) ∧
+    (∀ s ps, (FL.node ⟨true, s⟩ ps : FL K).linear = false → (FL.node ⟨true, s⟩ ps).polys = .error .attribute) := by
+  refine ⟨(polys_linear_aux.1 o).1, (polys_linear_aux.1 o).2, full_linear_aux.1 o, fun s ps h => ?_⟩
+  simp only [FL.linear] at h
+  simp [FL.polys, h, bind, Except.bind]
+
+/-- **len_rule**: `len` counts the parts; concatenation adds, repetition multiplies — but the result of a
+dunder of a USER SUBCLASS holds one part (the library-class result, `cls(super().__add__(other))`) -/
+theorem len_rule (k k' : Kind) (a b : FLs K) (n : ℤ) :
+    Obj.len (.fl (.node k a)) = some a.length ∧ a.length = a.toList.length ∧
+    (a ++ b).length = a.length + b.length ∧
+    (∃ o, Obj.add (.fl (.node k a)) (.fl (.node k' b)) = .ok o ∧
+      o.len = some (if k.sub = 0 then a.length + b.length else 1)) ∧
+    (∃ o, Obj.mulInt (.fl (.node k a)) n = .ok o ∧ o.len = some (if k.sub = 0 then n.toNat * a.length else 1)) := by
+  refine ⟨rfl, FLs.length_toList a, FLs.length_append a b, ⟨_, rfl, ?_⟩, ⟨_, rfl, ?_⟩⟩
+  · rw [len_wrap, FLs.length_append]
+  · rw [len_wrap, FLs.length_rep]
+
+/-- **linearize_accumulates** (`new_poly[key] += value` / `= value`): the loop keeps the keys distinct and adds
+the monomial to what the dictionary denotes -/
+theorem linearize_accumulates (d : List (ℤ × K)) (k : ℤ) (x : K) (h : (keys d).Nodup) :
+    (keys (dictAdd d k x)).Nodup ∧ toLaurent (dictAdd d k x) = toLaurent d + AddMonoidAlgebra.single k x :=
+  ⟨nodup_dictAdd h k x, toLaurent_dictAdd d k x⟩
+
+/-- **linearize_fractional**: the result of `linearize()` is the LINEAR INTERPOLATION term by term — the
+dictionaries denote `Σ v·((1−w)·x^left + w·x^(left+1))`; the constructor raises exactly when the interpolated
+denominator is the zero polynomial, else the result denotes the quotient of the interpolated sums -/
+theorem linearize_fractional (num den : List (FTerm K)) :
+    (keys (linDict num)).Nodup ∧ toLaurent (linDict num) = (num.map termL).sum ∧
+    ((den.map termL).sum = 0 → linearizeF num den = .error .value) ∧
+    ((den.map termL).sum ≠ 0 → ∃ h, linearizeF num den = .ok h ∧ Valid h ∧
+      val h = ι (num.map termL).sum / ι (den.map termL).sum) :=
+  ⟨(linDict_spec num).1, (linDict_spec num).2, (linearizeF_den num den).1, (linearizeF_den num den).2⟩
+
+/-- **linearize_truncation** (`left = int(k)`, as coded): the split is exact (`left + w = k`), so the two
+weights add up to one and the MEAN delay `left·(1−w) + (left+1)·w` is `k`; for `k ≥ 0` both weights lie in
+`[0, 1]` (interpolation between the neighbours `⌊k⌋`, `⌊k⌋+1`); for `k < 0` truncation goes TOWARD ZERO:
+`left ≥ k`, `w ∈ (−1, 0]` — the weight of `left+1` is negative and that of `left` exceeds one: for a negative
+fractional power the code extrapolates from the two integer delays above `k` -/
+theorem linearize_truncation (k v : ℚ) :
+    ((ftermOf k v).left : ℚ) + (ftermOf k v).w = k ∧ (ftermOf k v).v = v ∧
+    ((ftermOf k v).left : ℚ) * (1 - (ftermOf k v).w) + (((ftermOf k v).left : ℚ) + 1) * (ftermOf k v).w = k ∧
+    (0 ≤ k → 0 ≤ (ftermOf k v).w ∧ (ftermOf k v).w < 1) ∧
+    (k < 0 → -1 < (ftermOf k v).w ∧ (ftermOf k v).w ≤ 0) ∧
+    ((ftermOf k v).w = 0 → linPairs (ftermOf k v) = [((ftermOf k v).left, v)]) := by
+  refine ⟨by simp [ftermOf], rfl, by simp only [ftermOf]; ring, fun h => ?_, fun h => ?_, fun h => ?_⟩
+  · obtain ⟨h1, h2⟩ := truncZ_nonneg h
+    simp only [ftermOf]; constructor <;> linarith
+  · obtain ⟨h1, h2⟩ := truncZ_neg h
+    simp only [ftermOf]; constructor <;> linarith
+  · have h' : k - ((truncZ k : ℤ) : ℚ) = 0 := h
+    simp [linPairs, ftermOf, h']
+
+/-- … witness of the extrapolation: `z**0.5` (power `−1/2` of `z⁻¹`) becomes `1.5 − 0.5·z⁻¹` -/
+theorem linearize_negative_fraction_extrapolates :
+    linPairs (ftermOf (-1/2) 1) = [(0, 3/2), (1, -1/2)] := by decide +kernel
+
+/-- **linearize_rational_powers**: the run entry — (power, coefficient) pairs with rational powers, sorted as
+`terms()` does — is `linearizeF` on the split terms, and the order of the terms does not matter for what the
+result denotes -/
+theorem linearize_rational_powers (num den : List (ℚ × ℚ)) :
+    linearizeQ num den = linearizeF (ftermsOf num) (ftermsOf den) ∧
+    ((ftermsOf num).map termL).sum = (num.map fun kv => termL (ftermOf kv.1 kv.2)).sum := by
+  refine ⟨rfl, ?_⟩
+  unfold ftermsOf
+  rw [List.map_map]
+  exact ((List.mergeSort_perm num _).map _).sum_eq
+
+/-- **subst_monomial**: `f(c·z^(−d))` for EVERY gain `c ≠ 0` and delay `d ≠ 0` (`f(2*z)`, `f(0.5*z**-1)`,
+`f(Fraction(1,3)*z**-2)`) runs and is the closed form: the coefficient `v` of `z^(−k)` picks up `c^(−k)` and
+moves to `z^(d·k)`, in numerator and denominator; no condition on `f` is needed (the substituted denominator
+cannot vanish) -/
+theorem subst_monomial {f : ZF K} (hf : Valid f) {c : K} (hc : c ≠ 0) {d : ℤ} (hd : d ≠ 0) :
+    ∃ r, subst f (monoZF c d) = .ok r ∧ Valid r ∧
+      toLaurent (monoSubst f.den c d) ≠ 0 ∧
+      r ≈ (⟨monoSubst f.num c d, monoSubst f.den c d⟩ : ZF K) := by
+  obtain ⟨r, e, hv, ev⟩ := subst_mono_den hf hc hd
+  have hne := monoSubst_ne_zero hf.2.1 hf.2.2 hc hd
+  refine ⟨r, e, hv, hne, ?_⟩
+  unfold val at ev
+  rw [div_eq_div_iff (ιD_ne_zero hv) (fun e0 => hne (ι_eq_zero.1 e0)), ← map_mul, ← map_mul] at ev
+  exact ι_inj ev
+
+/-- **subst_monomial_point**: exact evaluation — `f(g)(z0) = f(g(z0))` at every point `z0 ≠ 0` where the two
+denominators do not vanish, `g = c·z^(−d)` -/
+theorem subst_monomial_point {f : ZF K} (hf : Valid f) {c : K} (hc : c ≠ 0) {d : ℤ} (hd : d ≠ 0)
+    {r : ZF K} (e : subst f (monoZF c d) = .ok r) (z0 : K) (hz : z0 ≠ 0)
+    (hr0 : evalAt r.den z0 ≠ 0) (hf0 : evalAt f.den (c * z0 ^ (-d)) ≠ 0) :
+    evalZF r z0 = evalComp f (monoZF c d) z0 ∧ evalComp f (monoZF c d) z0 = evalZF f (c * z0 ^ (-d)) := by
+  obtain ⟨r', e', hv, ev⟩ := subst_mono_den hf hc hd
+  obtain rfl : r' = r := by rw [e] at e'; exact (Except.ok.inj e').symm
+  have hne := monoSubst_ne_zero hf.2.1 hf.2.2 hc hd
+  have hw : c * z0 ^ (-d) ≠ 0 := mul_ne_zero hc (zpow_ne_zero _ hz)
+  have hcomp : evalComp f (monoZF c d) z0 = evalZF f (c * z0 ^ (-d)) := by
+    have h1 : evalAt (monoZF c d).den z0 = 1 := by simp [evalAt_eq, monoZF]
+    have h2 : evalAt (monoZF c d).num z0 = c * z0 ^ (-d) := by simp [evalAt_eq, monoZF]
+    have eg : evalZF (monoZF c d) z0 = some (c * z0 ^ (-d)) := by
+      unfold evalZF; rw [h1, h2]; simp
+    unfold evalComp
+    rw [eg]
+    simp only [if_neg hw]
+  refine ⟨?_, hcomp⟩
+  rw [hcomp]
+  have hs0 : evalAt (monoSubst f.den c d) z0 ≠ 0 := by rw [evalAt_monoSubst _ _ _ _ hz]; exact hf0
+  rw [evalZF_of_val_eq (s := ⟨monoSubst f.num c d, monoSubst f.den c d⟩) (D_ne_zero hv) hne ev z0 hz hr0 hs0]
+  unfold evalZF
+  simp only [evalAt_monoSubst _ _ _ _ hz]
+
+/-- **hist_reads_current**: filter lists are mutable lists and nothing is cached — in every history of one
+object (parts replaced in place by `obj[i] = g`, `obj[:] = […]`, `append`, `extend` between reads), every read
+of `numpoly` / `denpoly` / `numlist` / `denlist` / call returns what the CURRENT parts give; the mutations that
+came before matter only through the parts they left -/
+theorem hist_reads_current (env : ℕ → K → K) (k : Kind) (ps qs : FLs K) (pre post : List (Ev K)) (e : Ev K)
+    (he : e.isRead = true) (hq : afterEvs ps pre = some qs)
+    (a b : List (Obs K)) (ha : runHist env k ps pre = some a) (hb : runHist env k qs post = some b) :
+    runHist env k ps (pre ++ e :: post) = some (a ++ readObs env k qs e :: b) ∧
+    afterEvs ps (pre ++ e :: post) = afterEvs qs post := by
+  have hr : runHist env k qs (e :: post) = some (readObs env k qs e :: b) := by
+    cases e with
+    | act m => simp [Ev.isRead] at he
+    | polys => simp [runHist, hb]
+    | lists => simp [runHist, hb]
+    | call xs => simp [runHist, hb]
+  constructor
+  · rw [runHist_append, ha, hq]; simp [hr]
+  · rw [afterEvs_append, hq]
+    cases e with
+    | act m => simp [Ev.isRead] at he
+    | polys => simp [afterEvs]
+    | lists => simp [afterEvs]
+    | call xs => simp [afterEvs]
+
+/-- … the shortest such history: read, replace the part at index `i`, read again — the second read is that of
+the list with the new part -/
+theorem hist_replace_part (env : ℕ → K → K) (k : Kind) (ps : FLs K) (i : ℤ) (n : ℕ) (g : FL K)
+    (hi : pyIndex ps.length i = some n) :
+    runHist env k ps [.polys, .act (.setItem i g), .polys] =
+      some [.polys (FL.polys (.node k ps)), .polys (FL.polys (.node k (ps.set n g)))] := by
+  simp [runHist, Mut.apply, hi, readObs]
+
+/-- … and a cache of the sum under `hash(tuple(self))` does **not** have that property (the change seeded in
+round 4): whenever the replacement leaves the key unchanged, the second read returns the OLD polynomials,
+whatever the new part is -/
+theorem hist_cache_by_hash_stale (s : ℕ) (ps : FLs K) (i : ℤ) (n : ℕ) (g : FL K) (nd : MPoly K × MPoly K)
+    (hi : pyIndex ps.length i = some n) (hl : ps.linear = true) (hl' : (ps.set n g).linear = true)
+    (hp : FL.polys (.node ⟨true, s⟩ ps) = .ok nd) (key : List (HKey K)) (hk : cacheKey ps = .ok key)
+    (hk' : cacheKey (ps.set n g) = .ok key) :
+    runHistCached ⟨true, s⟩ ps none [.polys, .act (.setItem i g), .polys] = some [.ok nd, .ok nd] := by
+  simp [runHistCached, polysCached, Mut.apply, hi, hl, hl', hp, hk, hk']
+
+/-- `LinearFilter.__hash__` hashes only the POWERS: a filter with the same powers and other coefficients
+leaves the key unchanged, and the stale polynomials are not those of the current parts.  Witness
+`ParallelFilter(1 + z⁻¹)`, `p[0] = 1 + 2z⁻¹`. -/
+theorem hist_cache_by_hash_refuted :
+    ∃ (ps : FLs ℚ) (g : FL ℚ) (key : List (HKey ℚ)) (nd fresh : MPoly ℚ × MPoly ℚ),
+      ps.linear = true ∧ (ps.set 0 g).linear = true ∧ cacheKey ps = .ok key ∧ cacheKey (ps.set 0 g) = .ok key ∧
+      FL.polys (.node ⟨true, 0⟩ ps) = .ok nd ∧ FL.polys (.node ⟨true, 0⟩ (ps.set 0 g)) = .ok fresh ∧
+      rEquiv (⟨nd.1, nd.2⟩ : ZF ℚ) ⟨fresh.1, fresh.2⟩ = false := by
+  have hs : ∀ l : MPoly ℚ, Ascending l → sortAsc l = l := fun l h => sortAsc_of_ascending h
+  have h1 : sortAsc ([(0, 1), (1, 1)] : MPoly ℚ) = [(0, 1), (1, 1)] := hs _ (by unfold Ascending; decide)
+  have h2 : sortAsc ([(0, 1), (1, 2)] : MPoly ℚ) = [(0, 1), (1, 2)] := hs _ (by unfold Ascending; decide)
+  have h3 : sortAsc ([(0, 1)] : MPoly ℚ) = [(0, 1)] := hs _ (by unfold Ascending; decide)
+  refine ⟨.cons (.leaf ⟨[(0, 1), (1, 1)], [(0, 1)]⟩) .nil, .leaf ⟨[(0, 1), (1, 2)], [(0, 1)]⟩, [.powers [0, 1, 0]],
+    ([(0, 1), (1, 1)], [(0, 1)]), ([(0, 1), (1, 2)], [(0, 1)]), by decide, by decide, ?_, ?_,
+    by decide +kernel, by decide +kernel, by decide +kernel⟩
+  · simp [cacheKey, FLs.toList, FL.hash, C05.hashKey, h1, h3, keys]
+  · simp [cacheKey, FLs.toList, FLs.set, FL.hash, C05.hashKey, h2, h3, keys]
+
+/-! ### non-vacuity of C05.6 -/
+
+example := spec_sum_prod (K := ℚ) [f1, g2] (by
+  intro f hf; simp only [List.mem_cons, List.not_mem_nil, or_false] at hf
+  rcases hf with rfl | rfl <;> exact D_ne_zero (by valid_tac))
+example : (rNorm (⟨[(1, 2)], [(1, 1), (3, 3)]⟩ : ZF ℚ)).map (fun h => (h.num, h.den)) = some ([(0, 2)], [(0, 1), (2, 3)]) := by
+  decide +kernel
+example : rCausal (⟨[(0, 2)], [(1, 1), (3, 3)]⟩ : ZF ℚ) = false ∧ rCausal (rOf g1) = true := by decide +kernel
+example := causality_decided (f := g1) ⟨by valid_tac, by unfold IsPoly; decide +kernel, by decide +kernel⟩
+example : (FL.node ⟨true, 0⟩ (.cons (.other 0) (.cons (.leaf f1) .nil)) : FL ℚ).linear = false := by decide +kernel
+example : (FL.node ⟨true, 0⟩ (.cons (.other 0) (.cons (.leaf f1) .nil)) : FL ℚ).polys = .error .attribute :=
+  (nonlinear_polys (FL.leaf f1)).2.2.2 0 (.cons (.other 0) (.cons (.leaf f1) .nil)) (by decide +kernel)
+example : (Obj.add (.fl (.node ⟨false, 1⟩ (.cons (.leaf f1) .nil))) (.fl nC)).toOption.bind Obj.len = some 1 ∧
+    (Obj.add (.fl nC) (.fl nP)).toOption.bind Obj.len = some 4 := by decide +kernel
+example := linearize_fractional (K := ℚ) [⟨0, -1/2, 2⟩, ⟨2, 0, 3⟩, ⟨4, 1/4, 1⟩] [⟨0, 0, 1⟩]
+example : [ftermOf (17/4) 1, ftermOf (-9/4) 1, ftermOf (-2) 3].map (fun t => (t.left, t.w, t.v))
+    = [(4, 1/4, 1), (-2, -1/4, 1), (-2, 0, 3)] := by decide +kernel
+example := subst_monomial (f := f1) (by valid_tac) (c := 2) (by norm_num) (d := -1) (by decide)
+/-- `f1(2z)`: `(1 + z⁻¹)/(1 − z⁻¹/2)` at `2z` is `(1 + z⁻¹/2)/(1 − z⁻¹/4)` -/
+example : (monoSubst f1.num 2 (-1), monoSubst f1.den 2 (-1)) = ([(0, 1), (1, 1/2)], [(0, 1), (1, -1/4)]) := by
+  decide +kernel
+/-- `f1((1/3)·z⁻²)` at `z0 = 2`: `g(z0) = 1/12`, `f1(1/12) = 13/(−5) ` -/
+example : evalComp f1 (monoZF (1/3) 2) 2 = some (-13/5) ∧
+    evalZF ⟨monoSubst f1.num (1/3) 2, monoSubst f1.den (1/3) 2⟩ 2 = some (-13/5) := by decide +kernel
+example := hist_replace_part (K := ℚ) envQ ⟨true, 0⟩ (.cons (.leaf f1) (.cons (.leaf g2) .nil)) (-1) 1 (.leaf g1) (by decide)
+example : (runHist envQ ⟨true, 0⟩ (.cons (.leaf f1) .nil) [.polys, .act (.setItem 0 (.leaf g1)), .polys, .lists, .call [1, 2]]).map
+    List.length = some 4 := by decide +kernel
 
 end ALV.Props.C05
 
